@@ -13,7 +13,7 @@ RULE = ("Arm A (monitor inside real search): C01's Hypothesis scripts x engines 
         "trace records every literal pushed to the theory solvers (TS+), every backtrack (TS-) and every check (TC). The "
         "Python side replays the literal stack. Oracle: whenever a solver reports an inconsistency (assertLit fails or a check "
         "returns UNSAT) the current literal set must be theory-unsat (z3, cvc5 not contradicting); whenever a complete check "
-        "returns SAT with no pending split clause in a logic without integers the current set must be certified sat. Up to "
+        "returns SAT with no pending split clause in a logic without integers the current set must be certified sat (Boolean terms that are arguments of uninterpreted functions are opaque constants there, tied to their own asserted literal only). Up to "
         "40 verdicts per run. Non-trivial = verdict issued after >= 1 backtrack on a literal set different from every earlier "
         "examined set of the run; distinct by literal set.")
 ASSUMPTIONS = ["z3 (+cvc5 where it can parse opensmt's numerals)", "hooked build", "integer logics: only UNSAT verdicts examined"]
@@ -32,6 +32,45 @@ def generate(rnd, tier):
         if rnd.random() < 0.4 and not any(o[0] == k for o in script["options"]):
             script["options"].append([k, rnd.choice(vals)])
     return script
+
+
+def abstract_boolargs(decls, lits):
+    """A theory solver sees a Boolean term that is an argument of an uninterpreted function only through the literal the
+    SAT engine asserts for it; the Boolean structure of such a term (and/or/...) is the SAT engine's business. Replace
+    every non-constant Bool argument by a fresh Boolean constant, tied to the term only where the term itself (or its
+    negation) is among the asserted literals. Returns (literals, extra declarations)."""
+    from .. import sexpr
+    bpos = {}
+    for d in decls:
+        if d.startswith("(declare-fun"):
+            rk = V.decl_rank(d)
+            if rk and "Bool" in rk[1]:
+                bpos[rk[0]] = [i for i, x in enumerate(rk[1]) if x == "Bool"]
+    if not bpos:
+        return lits, []
+    names = {}
+
+    def walk(e):
+        if isinstance(e, str):
+            return e
+        out = [walk(x) for x in e]
+        if isinstance(e[0], str) and e[0] in bpos:
+            for i in bpos[e[0]]:
+                if i + 1 < len(e) and e[i + 1] not in ("true", "false"):
+                    t = sexpr.to_str(e[i + 1])
+                    out[i + 1] = names.setdefault(t, "|.babs%d|" % len(names))
+        return out
+    try:
+        new = [sexpr.to_str(walk(sexpr.parse_one(l))) for l in lits]
+    except Exception:
+        return lits, []
+    cur = set(lits)
+    for t, b in names.items():
+        if t in cur:
+            new.append(b)
+        if "(not %s)" % t in cur:
+            new.append("(not %s)" % b)
+    return new, ["(declare-fun %s () Bool)" % b for b in names.values()]
 
 
 def check(case, ctx):
@@ -63,6 +102,13 @@ def check(case, ctx):
         examined.add(key)
         n += 1
         cur = sorted(set(stack))
+        decls0 = decls
+        if expect == "sat":
+            # a reported inconsistency is judged on the literals as they are; a reported consistency on what the solver can see
+            cur, extra = abstract_boolargs(decls, cur)
+            if extra:
+                classes.append("bool-arguments-abstracted")
+            decls0 = decls + extra
         if expect == "unsat":
             zr, zd = ref.z3_check(decls, cur, tms)
             if zr == "sat":
@@ -73,9 +119,9 @@ def check(case, ctx):
             elif zr != "unsat":
                 status = "inconclusive"
         else:
-            zr, zd = ref.z3_check(decls, cur, tms)
+            zr, zd = ref.z3_check(decls0, cur, tms)
             if zr == "unsat":
-                cr, _ = ref.cvc5_check(decls, cur, tms)
+                cr, _ = ref.cvc5_check(decls0, cur, tms)
                 if cr != "sat":
                     return {"what": "complete-check-consistent-for-unsatisfiable-literal-set", "literals": cur,
                             "verdict_record": recs[i], "script": gen.render(script)}
